@@ -107,15 +107,18 @@ DTYPES = ['int8', 'int16', 'int32', 'uint8', 'uint16', 'uint32', 'float32', 'flo
 
 
 def simple_file(rng, vrl=8192, n_channels=None, rows=None, nofmt_payloads=(), names=None, width=None, dtypes=None,
-                ident='MAIN-STORAGE-UNIT', extra=True):
+                ident='MAIN-STORAGE-UNIT', extra=True, first_vrl=None):
     """A small real DLISFile: origin, channels with inline data, one frame, optional no-format data and a few other
     objects. Returns (dlis_file, info)."""
     from dliswriter import DLISFile
+    vrl, vrl_final = (first_vrl if first_vrl is not None else vrl), vrl
     if rng.random() < 0.4:
         from dliswriter.logical_record.misc import StorageUnitLabel
         df = DLISFile(storage_unit_label=StorageUnitLabel(ident, sequence_number=1, max_record_length=vrl))
     else:
         df = DLISFile(set_identifier=ident, max_record_length=vrl)
+    if first_vrl is not None:     # the label is a public, mutable object: the length in force is the one it holds at write
+        df.storage_unit_label.max_record_length = vrl_final
     lf = df.add_logical_file(fh_id='H-%d' % rng.randrange(1000))
     lf.add_origin('ORIGIN', file_set_number=rng.randrange(1, 1000), creation_time='2024/01/02 03:04:05')
     n_channels = n_channels or rng.randrange(1, 5)
